@@ -1,6 +1,7 @@
 /- line-protocol driver: `<family> <command…>` per line in, one canonical line out -/
 import Driver.PathFam
 import Driver.ForestFam
+import Driver.Level2Fam
 
 open Driver
 
@@ -17,6 +18,7 @@ def stepLine (st : St) (line : String) : St × String :=
   | "forest" :: _ =>
     let (p, out) := ForestFam.step st.forest (line.drop 7).toString
     ({ st with forest := p }, out)
+  | "level2" :: _ => (st, Level2Fam.step (line.drop 7).toString)
   | _ => (st, "bad-family")
 
 partial def loop (h : IO.FS.Stream) (out : IO.FS.Stream) (st : St) : IO Unit := do
